@@ -62,9 +62,9 @@ func (prop) ID() string { return "C19" }
 
 func (prop) Plan(tier string) []core.Phase {
 	if tier == "thorough" {
-		return []core.Phase{{Name: "clean", Runs: 3000000}, {Name: "faulty", Runs: 6000000}}
+		return []core.Phase{{Name: "clean", Runs: 30000000}, {Name: "faulty", Runs: 30000000}}
 	}
-	return []core.Phase{{Name: "clean", Runs: 60000}, {Name: "faulty", Runs: 120000}}
+	return []core.Phase{{Name: "clean", Runs: 600000}, {Name: "faulty", Runs: 600000}}
 }
 
 func (prop) Describe() core.Description {
